@@ -232,6 +232,7 @@ private:
   struct Cnt {
     int k = 2; // 0 zero, 1 one (of variable v), 2 many
     std::vector<var_t> v;
+    long obj = -1; // the object v designated when it was counted (-1: none / not an object)
   };
   std::map<var_t, Cnt> shadow_count;
 
@@ -253,18 +254,30 @@ private:
       c.v.clear();
       return;
     }
-    // 1(V) and V is counted again: the counter stays 1(V).  Is the object of the old target still
-    // reachable?  Through an offset-0 alias in the same region, or through a reference kept in
-    // another region / at another offset (gep_ref and select_ref can bring it back).
+    // 1(V) and V is counted again: the counter stays 1(V).  Is the object that was counted (or the
+    // one V designates now) still reachable?  Through an offset-0 alias in the same region, or
+    // through a reference kept in another region / at another offset (gep_ref and select_ref can
+    // bring it back).
     RefVal old = heap.ref(v);
-    if (old.k != RefVal::Obj)
-      return;
+    std::set<long> objs;
+    if (c.obj >= 0)
+      objs.insert(c.obj);
+    if (old.k == RefVal::Obj)
+      objs.insert((long)old.obj);
     for (auto &kv : heap.refs)
-      if (!(kv.first == v) && kv.second.k == RefVal::Obj && kv.second.obj == old.obj)
+      if (!(kv.first == v) && kv.second.k == RefVal::Obj && objs.count((long)kv.second.obj))
         redefined_with_live_alias.insert(rgn);
     for (auto &kv : heap.cells)
-      if (kv.second.v.kind == HVal::REF && kv.second.v.ref.k == RefVal::Obj && kv.second.v.ref.obj == old.obj)
+      if (kv.second.v.kind == HVal::REF && kv.second.v.ref.k == RefVal::Obj && objs.count((long)kv.second.v.ref.obj))
         redefined_with_live_alias.insert(rgn);
+  }
+  // called after the counted (re-)definition: remember which object is the counted one
+  void after_counted_redefinition(const var_t &v, const var_t &rgn) {
+    auto ci = shadow_count.find(rgn);
+    if (ci == shadow_count.end() || ci->second.k != 1 || !(ci->second.v[0] == v))
+      return;
+    RefVal now = heap.ref(v);
+    ci->second.obj = now.k == RefVal::Obj ? (long)now.obj : -1;
   }
 
   RefVal use_ref(const var_t &v) {
@@ -456,6 +469,7 @@ public:
     r.obj = (unsigned)heap.objs.size() - 1;
     r.off = z_number(0);
     heap.refs[s.lhs()] = r;
+    after_counted_redefinition(s.lhs(), s.region());
     made_by[&s].push_back(r.obj);
   }
   void visit(remove_ref_t &s) override {
@@ -549,9 +563,12 @@ public:
       if (r.off > 4096 || r.off < -4096)
         out("gep_ref offset beyond +-4096");
     }
-    if (!(s.lhs_region() == s.rhs_region()) || k != 0)
+    bool counted = !(s.lhs_region() == s.rhs_region()) || k != 0;
+    if (counted)
       note_counted_redefinition(s.lhs(), s.lhs_region());
     heap.refs[s.lhs()] = r;
+    if (counted)
+      after_counted_redefinition(s.lhs(), s.lhs_region());
   }
   void visit(assume_ref_t &s) override {
     bool h = eval_ref_cst(s.constraint());
@@ -577,12 +594,16 @@ public:
       r.k = RefVal::Null;
     else
       r = use_ref(op.get_variable());
+    bool counted = false;
     {
       boost::optional<var_t> org = c ? s.left_rgn() : s.right_rgn();
-      if (org && !(*org == s.lhs_rgn()))
+      counted = org && !(*org == s.lhs_rgn());
+      if (counted)
         note_counted_redefinition(s.lhs_ref(), s.lhs_rgn());
     }
     heap.refs[s.lhs_ref()] = r;
+    if (counted)
+      after_counted_redefinition(s.lhs_ref(), s.lhs_rgn());
   }
   void visit(ref_to_int_t &s) override {
     RefVal r = use_ref(s.ref_var());
@@ -622,6 +643,7 @@ public:
     }
     note_counted_redefinition(s.ref_var(), s.region());
     heap.refs[s.ref_var()] = r;
+    after_counted_redefinition(s.ref_var(), s.region());
   }
   void visit(bool_assign_var_t &s) override {
     Interp::visit(s);
